@@ -28,10 +28,32 @@ var mutantTable = []Mutant{
 		Old: "\t\tcase *PacketSYN:\n\n\t\tcase *PacketSYNACK, *PacketData:", New: "\t\tcase *PacketSYN, *PacketACK:\n\n\t\tcase *PacketSYNACK, *PacketData:"},
 	{Name: "mbox-msgdata-length-test-removed", Prop: "C07,C19", Rule: "BND", File: "mailbox/interface.go",
 		Old: "\tif len(b) < baseLength+int(payloadLen) {\n\t\treturn io.EOF\n\t}\n", New: ""},
-	{Name: "mbox-msgdata-base-length", Prop: "C07,C19", Rule: "BND", File: "mailbox/interface.go",
+	{Name: "mbox-msgdata-base-length", Prop: "C07", Rule: "BND", File: "mailbox/interface.go",
 		Old: "\tif len(b) < baseLength {\n\t\treturn io.EOF\n\t}\n\tm.version = b[0]", New: "\tif len(b) < 1 {\n\t\treturn io.EOF\n\t}\n\tm.version = b[0]"},
 	{Name: "gbn-update-frequency-zero", Prop: "C07", Rule: "DIV-INV", File: "gbn/config.go",
 		Old: "\t\tif frequency > 0 {", New: "\t\tif frequency >= 0 {"},
 	{Name: "gbn-addpacket-no-mod", Prop: "C07,C09,C01", Rule: "INV", File: "gbn/queue.go",
 		Old: "q.sequenceTop = (q.sequenceTop + 1) % q.cfg.s", New: "q.sequenceTop = q.sequenceTop + 1"},
+
+	// ---- C19: codecs ----
+	{Name: "gbn-data-flags-swapped-on-read", Prop: "C19", Rule: "CODEC", File: "gbn/messages.go",
+		Old: "FinalChunk: b[2] == TRUE,\n\t\t\tIsPing:     b[3] == TRUE,", New: "FinalChunk: b[3] == TRUE,\n\t\t\tIsPing:     b[2] == TRUE,"},
+	{Name: "gbn-data-ping-written-false", Prop: "C19", Rule: "CODEC", File: "gbn/messages.go",
+		Old: "\tif m.IsPing {\n\t\tif err := buf.WriteByte(TRUE); err != nil {", New: "\tif m.IsPing {\n\t\tif err := buf.WriteByte(FALSE); err != nil {"},
+	{Name: "gbn-data-final-compares-false", Prop: "C19", Rule: "CODEC", File: "gbn/messages.go",
+		Old: "FinalChunk: b[2] == TRUE,", New: "FinalChunk: b[2] == FALSE,"},
+	{Name: "gbn-nack-written-with-ack-tag", Prop: "C19", Rule: "CODEC", File: "gbn/messages.go",
+		Old: "if err := buf.WriteByte(NACK); err != nil {", New: "if err := buf.WriteByte(ACK); err != nil {"},
+	{Name: "gbn-syn-reads-wrong-offset", Prop: "C19", Rule: "CODEC", File: "gbn/messages.go",
+		Old: "return &PacketSYN{\n\t\t\tN: b[1],", New: "return &PacketSYN{\n\t\t\tN: b[0],"},
+	{Name: "gbn-data-guard-5", Prop: "C19", Rule: "CODEC", File: "gbn/messages.go",
+		Old: "if len(b) < 4 {", New: "if len(b) < 5 {"},
+	{Name: "gbn-data-payload-from-3", Prop: "C19", Rule: "CODEC", File: "gbn/messages.go",
+		Old: "Payload:    b[4:],", New: "Payload:    b[3:],"},
+	{Name: "mbox-msgdata-len-from-0", Prop: "C19", Rule: "CODEC", File: "mailbox/interface.go",
+		Old: "lenBytes := b[1:baseLength]", New: "lenBytes := b[0:4]"},
+	{Name: "mbox-msgdata-len-of-version", Prop: "C19", Rule: "CODEC", File: "mailbox/interface.go",
+		Old: "payloadLen := uint32(len(m.Payload))", New: "payloadLen := uint32(len(m.Payload) + 1)"},
+	{Name: "mbox-msgdata-little-endian-read", Prop: "C19", Rule: "CODEC", File: "mailbox/interface.go",
+		Old: "payloadLen := byteOrder.Uint32(lenBytes)", New: "payloadLen := binary.LittleEndian.Uint32(lenBytes)"},
 }
